@@ -104,7 +104,7 @@ let matrix_values v =
     (match root_bval bs with
      | None -> ""
      | Some b ->
-       let cnt = Printf.sprintf " cnt=%d:%d" (int_of_z (jbl_type b)) (int_of_z (jbl_count b)) in
+       let cnt = Printf.sprintf " cnt=%d:%d sz=%d" (int_of_z (jbl_type b)) (int_of_z (jbl_count b)) (int_of_z (jbl_size b)) in
        let it = (match jbl_members b with
          | None -> " it=ERR-CRE"
          | Some l ->
